@@ -919,8 +919,51 @@ func (w *World) quiet() {
 	}
 	ok = s.Run(8*et, 5*time.Millisecond, w.allCaughtUp)
 	if !ok {
-		w.violate("C15", "a running member did not reach the leader's applied sequence in the fault-free period", s.StatusLine()+" | "+w.appliedSummary(),
-			map[string]string{"oracle": "catch-up", "membership": w.membershipTag(), "snapshots": fmt.Sprint(s.Opts.SnapEvery > 0)})
+		diag := ""
+		if l := s.Leader(); l != 0 {
+			vs := s.Nodes[l].R.VerifGetState()
+			for id, f := range vs.Followers {
+				diag += fmt.Sprintf(" fol[%s next=%d match=%d snapOpen=%v]", id, f.NextIndex, f.MatchIndex, f.SnapshotOpen)
+			}
+			diag += fmt.Sprintf(" leader: si=%d log=%s", vs.LastIncludedIndex, s.Nodes[l].LogOf().String())
+		}
+		for _, id := range s.IDs() {
+			vs := s.Nodes[id].R.VerifGetState()
+			diag += fmt.Sprintf(" | node %d: si=%d snapshotOpen=%v(label %d) log=%s", id, vs.LastIncludedIndex, vs.SnapshotOpen, vs.SnapshotMetadata.LastIncludedIndex, s.Nodes[id].LogOf().String())
+		}
+		diag += fmt.Sprintf(" | pending=%d blocked=%d", len(s.PendingCalls()), len(s.Blocked))
+		w.violate("C15", "a running member did not reach the leader's applied sequence in the fault-free period", s.StatusLine()+" | "+w.appliedSummary()+" |"+diag,
+			map[string]string{"oracle": "catch-up", "membership": w.membershipTag(), "snapshots": fmt.Sprint(s.Opts.SnapEvery > 0), "pattern": w.catchUpPattern()})
+	}
+}
+
+// catchUpPattern tells a replica that is behind from one that has reached the leader's applied
+// index with a different state (which no amount of time repairs: the consequence of an inexact
+// snapshot, C10 findings S9/S20).
+func (w *World) catchUpPattern() string {
+	lead := w.S.Leader()
+	if lead == 0 {
+		return "no-leader"
+	}
+	la := w.S.Nodes[lead].R.Status().LastApplied
+	ls := w.S.Nodes[lead].FSM.State()
+	behind, differs := false, false
+	for _, id := range w.S.IDs() {
+		st := w.S.Nodes[id].R.Status()
+		fs := w.S.Nodes[id].FSM.State()
+		if st.LastApplied < la {
+			behind = true
+		} else if fs.Hash != ls.Hash || fs.Count != ls.Count {
+			differs = true
+		}
+	}
+	switch {
+	case differs && !behind:
+		return "state-differs-at-equal-applied-index"
+	case differs:
+		return "behind-and-state-differs"
+	default:
+		return "behind"
 	}
 }
 
